@@ -20,11 +20,14 @@ CONSTANT Traces      \* sequence of [base |-> b, steps |-> sequence of [a |-> ca
 VARIABLES tid, pos
 tvars == <<D, cache, handed, last, tid, pos>>
 
-Steps(t) == Traces[t].steps
+(* TLC evaluates a constant definition without parameters once; a substituted CONSTANT is re-evaluated on every use *)
+TraceSeq == Traces
+StepSeqs == [t \in 1..Len(TraceSeq) |-> TraceSeq[t].steps]
+Steps(t) == StepSeqs[t]
 
-TraceInit == /\ tid \in 1..Len(Traces)
+TraceInit == /\ tid \in 1..Len(TraceSeq)
              /\ pos = 0
-             /\ D = Base(Traces[tid].base)
+             /\ D = Base(TraceSeq[tid].base)
              /\ cache = NoCache
              /\ handed = "none"
              /\ last = Call("Init", U, U, -1, U, U, FALSE, Done)
